@@ -458,6 +458,47 @@ func (m *Mutex) Unlock() {
 	m.mu.Unlock()
 }
 
+// Cond replaces sync.Cond: a woken waiter first parks (holding nothing), so that after a
+// Broadcast the controller decides in which order the waiters go for the lock; with
+// sync.Cond they would race for it in real time and the run could not be replayed.
+type Cond struct {
+	L       sync.Locker
+	mu      sync.Mutex
+	waiters []chan struct{}
+}
+
+func NewCond(l sync.Locker) *Cond { return &Cond{L: l} }
+
+func (c *Cond) Wait() {
+	ch := make(chan struct{})
+	c.mu.Lock()
+	c.waiters = append(c.waiters, ch)
+	c.mu.Unlock()
+	c.L.Unlock()
+	<-ch
+	Yield("cond-wake")
+	c.L.Lock()
+}
+
+func (c *Cond) Signal() {
+	c.mu.Lock()
+	if len(c.waiters) > 0 {
+		ch := c.waiters[0]
+		c.waiters = c.waiters[1:]
+		close(ch)
+	}
+	c.mu.Unlock()
+}
+
+func (c *Cond) Broadcast() {
+	c.mu.Lock()
+	for _, ch := range c.waiters {
+		close(ch)
+	}
+	c.waiters = nil
+	c.mu.Unlock()
+}
+
 // RWMutex with writer preference like sync.RWMutex: once a writer waits, new
 // readers queue behind it.
 type RWMutex struct {
